@@ -24,6 +24,10 @@ pub use data_structures::*;
 mod combinations;
 use combinations::*;
 
+/// Accessors for external conformance harnesses (only with `--cfg pc_verif`).
+#[cfg(pc_verif)]
+pub mod verif_hooks;
+
 /// Multivariate polynomial commitment based on the construction in [[PST13]][pst]
 /// with batching and (optional) hiding property inspired by the univariate scheme
 /// in [[CHMMVW20, "Marlin"]][marlin]
